@@ -243,8 +243,31 @@ pub fn history(ctx: &mut Ctx, idx: u64) {
                         }
                     }
                 }
-                // sometimes the announcement shares its packet with records of the discoverer's own instance
+                // sometimes the announcing stack pads its TXT record with strings that are not attributes (an empty string, a
+                // string that starts with '='), anywhere in the list: RFC 6763 6.4 has them ignored one by one, the attributes
+                // around them are the instance's all the same
                 let mut recs = recs;
+                if r.chance(1, 8) {
+                    for rec in recs.iter_mut() {
+                        let strings: Vec<Vec<u8>> = match &rec.rdata { RData::TXT(t) => t.verif_strings().iter().map(|x| x.to_vec()).collect(), _ => continue };
+                        if !strings.iter().any(|x| !x.is_empty()) {
+                            continue;
+                        }
+                        let at = r.usize(0, strings.len());
+                        let filler: &[u8] = if r.bool() { b"" } else { b"=not-an-attribute" };
+                        let mut v = simple_dns::rdata::TXT::new();
+                        for i in 0..=strings.len() {
+                            if i == at {
+                                v = v.with_char_string(simple_dns::CharacterString::new(filler).unwrap().into_owned());
+                            }
+                            if i < strings.len() {
+                                v = v.with_char_string(simple_dns::CharacterString::new(&strings[i]).unwrap().into_owned());
+                            }
+                        }
+                        rec.rdata = RData::TXT(v.into_owned());
+                        ctx.count("announcements_whose_txt_record_carries_a_keyless_string");
+                    }
+                }
                 let mixed = no_channel && r.chance(1, 6);
                 if mixed {
                     let mine: Vec<ResourceRecord<'static>> = own_desc.info(r.next()).into_records(&own, ttl).unwrap().into_iter().map(|x| x.into_owned()).collect();
